@@ -184,6 +184,8 @@ def gen_ops(rng, prop, knobs, profile):
         elif kind == "REOPEN":
             op["size"] = None if rng.random() < 0.6 else int(knobs["max_bytes"] * rng.choice([0.5, 1, 2]))
             op["evict"] = rng.random() < 0.3
+            if rng.random() < 0.3:
+                op["flip_parallel"] = True
         elif kind == "FOREIGN":
             op["name"] = rng.choice(FOREIGN_NAMES)
             op["size"] = rng.choice([0, 10, 5000])
@@ -244,6 +246,11 @@ def gen_faults(rng, knobs, ops):
         return faults
     nf = wchoice(rng, [(10, 0), (45, 1), (30, 2), (15, 3)])
     extra_ops = []
+    if rng.random() < 0.05:
+        # the disk is full during one whole request; the same request is repeated afterwards
+        gi = rng.choice(gets)
+        faults.append({"op": ops[gi]["id"], "kind": "DISK_FULL", "key": None})
+        extra_ops.append((gi, {"op": "GET", "keys": list(ops[gi]["keys"]), "dt": 1000}))
     for _ in range(nf):
         gi = rng.choice(gets)
         op = ops[gi]
